@@ -165,9 +165,11 @@ class Case:
         h = hashlib.sha1(sch + b":" + cc + b":" + other).hexdigest().encode()
         if k < 0.3 and other != secret: return cc + b" " + h                          # another cookie's secret
         if k < 0.45: return cc + b" " + hashlib.sha1(sch + b":" + cc + b"x:" + (secret or b"")).hexdigest().encode()
-        if k < 0.55: return cc + b" " + h[:-1] + (b"0" if h[-1:] != b"0" else b"1")
-        if k < 0.62: return cc + h                                                      # no separator
-        if k < 0.68: return b" " + h
+        if k < 0.52: return cc + b" " + h[:-1] + (b"0" if h[-1:] != b"0" else b"1")
+        if k < 0.58: return cc + b" " + h[:r.choice([1, 1, 2, 8, 20, 39, r.randint(1, 39)])]   # a proper prefix of the right digest
+        if k < 0.62: return cc + b" " + h + r.choice([b"0", h[:1], h])                  # the right digest and more
+        if k < 0.65: return cc + h                                                      # no separator
+        if k < 0.69: return b" " + h
         if k < 0.74: return cc + b" "
         if k < 0.8: return cc + b" \n" + h                                              # blank followed by LF
         if k < 0.86: return cc + b" " + h.upper()
@@ -267,6 +269,41 @@ class Case:
         return ops, ans
 
 
+class DigestCase(Case):
+    """a client that asks for DBUS_COOKIE_SHA1 as the server's own user and answers every challenge with a near miss of the right
+    digest: a proper prefix of it (1 digit ... 39 digits), the digest followed by more digits, one digit changed, the wrong case -
+    and in the end, sometimes, the right one"""
+    def __init__(self, rng, home, self_uid, users):
+        super().__init__(rng, home, self_uid, users)
+        self.uid, self.mechs, self.keyring_kind = self_uid, None, "fresh"
+        self.turn = 0
+
+    def near_miss(self):
+        r = self.r
+        cc = bytes(r.choice(b"0123456789abcdef") for _ in range(16))
+        cid, sch = self.last_challenge
+        secret = read_keyring(self.home).get(cid) or b"aa"
+        h = hashlib.sha1(sch + b":" + cc + b":" + secret).hexdigest().encode()
+        k = self.turn % 7
+        if k == 0: v = h[:r.choice([1, 2, 3])]
+        elif k == 1: v = h[:r.randint(4, 39)]
+        elif k == 2: v = h + h[:r.randint(1, 40)]
+        elif k == 3: v = h[:39]
+        elif k == 4: v = h[:20] + (b"0" if h[20:21] != b"0" else b"1") + h[21:]
+        elif k == 5: v = h.upper() if h.upper() != h else h[:-1]
+        else:
+            self.sent_correct = True; v = h
+        return cc + b" " + v
+
+    def line(self, st):
+        self.turn += 1
+        if st == "WaitingForData" and self.last_challenge:
+            return b"DATA " + self.near_miss().hex().encode()
+        if st == "WaitingForBegin":
+            return self.r.choice([b"BEGIN", b"CANCEL"])
+        return b"AUTH DBUS_COOKIE_SHA1 " + str(self.self_uid).encode().hex().encode()
+
+
 def model_script(case, ops, ans, cookies):
     """the same operations for the model, with the environment's choices (cookie id, challenge) that
     the implementation made, in order"""
@@ -334,13 +371,40 @@ def oracle(case, ops, ans, cookies):
 
 
 def cookie_oracle(case, ops, ans, cookies):
-    """a DBUS_COOKIE_SHA1 OK must answer a DATA line carrying the SHA-1 of challenge:client-challenge:cookie"""
+    """a DBUS_COOKIE_SHA1 `OK` answers a challenge: some DATA line the client sent after that challenge must carry the client's
+    challenge and exactly the 40-digit SHA-1 of server-challenge:client-challenge:cookie, for the cookie the challenge names"""
     bad = []
-    stream = b""
-    chal = None
-    # reconstruct line by line what was sent and what came back, in order
-    sent = b"".join(unhx(op.split()[2]) for op in ops if op.startswith("auth feed"))
-    out = b"".join(unhx(fld(a, "new")) for a in ans[1:] if a)
+    feeds = [(k, unhx(op.split()[2])) for k, op in enumerate(ops) if op.startswith("auth feed")]
+    pending = None          # (step, cookie id, server challenge) of the challenge not yet answered by OK / REJECTED
+    for k, a in enumerate(ans):
+        if k == 0 or a is None:
+            continue
+        for l in unhx(fld(a, "new")).split(b"\r\n"):
+            m = re.match(rb"^DATA ([0-9a-f]+)$", l)
+            if m:
+                f = bytes.fromhex(m.group(1).decode()).split(b" ")
+                if len(f) == 3 and f[1].isdigit():
+                    pending = (k, int(f[1]), f[2])
+            elif l.startswith(b"REJECTED"):
+                pending = None
+            elif l.startswith(b"OK") and pending is not None:
+                k0, cid, sch = pending
+                pending = None
+                cookie = cookies.get(cid)
+                sent = b"".join(d for kk, d in feeds if k0 < kk <= k)
+                good = False
+                for line in re.split(rb"\r\n", sent):
+                    mm = re.match(rb"^DATA[ \t]+([0-9a-fA-F]*)[ \t]*$", line)
+                    if not mm or len(mm.group(1)) % 2:
+                        continue
+                    payload = bytes.fromhex(mm.group(1).decode())
+                    parts = payload.split(None, 1)
+                    if len(parts) == 2 and cookie is not None and \
+                            parts[1].strip(b" \t") == hashlib.sha1(sch + b":" + parts[0] + b":" + cookie).hexdigest().encode():
+                        good = True
+                if not good:
+                    bad.append("step %d: DBUS_COOKIE_SHA1 answered OK although no response sent since the challenge of step %d carries the SHA-1 of "
+                               "challenge:client-challenge:cookie %d" % (k, k0, cid))
     return bad
 
 
@@ -354,12 +418,12 @@ def _job(args):
         os.chmod(home, 0o700)
         try:
             h = Harness(exe, home)
-            case = Case(rng, home, os.getuid(), users)
+            case = DigestCase(rng, home, os.getuid(), users) if c % 12 == 5 else Case(rng, home, os.getuid(), users)
             ops, ans = case.run(h)
             rc, err = h.close()
             cookies = read_keyring(home)
             res.append({"ops": ops, "ans": ans, "rc": rc, "err": err[-2500:], "model_ops": model_script(case, ops, ans, cookies),
-                        "oracle": oracle(case, ops, ans, cookies), "sent_correct": case.sent_correct,
+                        "oracle": oracle(case, ops, ans, cookies) + cookie_oracle(case, ops, ans, cookies), "sent_correct": case.sent_correct,
                         "env": {"uid": case.uid, "mechs": None if case.mechs is None else [m.decode("latin1") for m in case.mechs], "keyring": case.keyring_kind}})
         finally:
             shutil.rmtree(home, ignore_errors=True)
@@ -450,7 +514,7 @@ def run(ctx):
                          "rule": "per case: socket credentials (uid = server owner / other / unset / 2^32-1, pid, groups, label), permitted mechanisms (any, subsets, "
                                  "unknown names, none), fd passing possible or not, keyring fresh/mixed/stale/absent; then 2-14 feeds (or a flood of up to 700) of command "
                                  "lines chosen from AUTH (each mechanism, unknown, case variants, with/without initial response), DATA (identity strings incl. strtoul "
-                                 "corner cases and user names, correct and 11 kinds of wrong cookie responses, malformed hex), CANCEL, ERROR, BEGIN, NEGOTIATE_UNIX_FD, "
+                                 "corner cases and user names, correct and 13 kinds of wrong cookie responses (among them proper prefixes and extensions of the right digest), malformed hex), CANCEL, ERROR, BEGIN, NEGOTIATE_UNIX_FD, "
                                  "client-only and unknown commands, blank/CR/LF/NUL/non-ASCII oddities, lines at the 16 KiB limit; random chunking, several lines "
                                  "per write, bytes after BEGIN, partial and missing draining of replies",
                          "distribution": stats, "samples": [cases[0]["ops"][:12]] if cases else [],
